@@ -222,16 +222,43 @@ NEWROWS = [
     "forall(i, 0, n, result[0][i]['logW'] == "
     "result[0][i]['logU'] - result[0][i]['logQ'])",
 ]
+DRAW_REQ = [
+    "n >= 1", f"self.proposal.flow.n_models == len({PW}) - 1",
+    f"len({PW}) >= 2",
+    f"forall(p, 0, len({PW}), not isnan({PW}[p - 1]))",
+    "forall(k, 0, len(self.proposal.flow.models), "
+    "not self.proposal.flow.models[k]['training'])",
+]
+shape("ISModelLL", {}, methods={
+    "batch_evaluate_log_likelihood": Contract(
+        "<abstract>", "ISModelLL.batch_evaluate_log_likelihood",
+        params={"x": INS_ARR, "unit_hypercube": "Bool"}, trusted=True,
+        trusted_reason="Model.batch_evaluate_log_likelihood: the model's "
+        "value LL at each point (C10); REQUIRES every point to be inside "
+        "the unit hypercube -- the call site has to prove it (C09: the "
+        "likelihood is never evaluated outside the prior support)",
+        requires=["forall(i, 0, len(x), InUnit(x[i]['x']))"],
+        returns="Seq(Real)",
+        ensures=["len(result) == len(x)",
+                 "forall(i, 0, len(x), result[i] == LL(x[i]['x']))"]),
+})
+_S["INSC03"].attrs.update({"model": "Obj(ISModelLL)",
+                           "draw_samples_time": "Any"})
 contract(
-    INS, "ImportanceNestedSampler.draw_n_samples", props=["C03"],
-    variant_name="c03", self_shape="INSC03", trusted=True, verify=False,
-    trusted_reason="ASSUMED here: the proposal's draw returns n rows that "
-    "satisfy the row invariant for the current weights "
-    "(ImportanceFlowProposal.draw: rejection loop and compute_log_Q are not "
-    "yet under contract); the likelihood is then filled in",
-    params={"n": "Int"}, requires=["n >= 1"], modifies=[],
-    returns=f"Tuple({INS_ARR},Tbl(QRow))", ensures=NEWROWS,
+    INS, "ImportanceNestedSampler.draw_n_samples", props=["C03", "C09"],
+    variant_name="c03", self_shape="INSC03", log_domain=True,
+    params={"n": "Int", "**kwargs": {}}, requires=DRAW_REQ,
+    modifies=["self.draw_samples_time"],
+    may_raise={"ValueError": None},
+    returns=f"Tuple({INS_ARR},Tbl(QRow))",
+    ensures=NEWROWS + [
+        "forall(i, 0, n, InUnit(result[0][i]['x']))",
+        # the stored log-likelihood is the model's value at the point
+        "forall(i, 0, n, result[0][i]['logL'] == LL(result[0][i]['x']))",
+    ],
 )
+
+
 def at(store, idx, m):
     """C03INV clauses for the single row `idx` of self.<store>"""
     S, Q = f"self.{store}.samples", f"self.{store}.log_q"
@@ -249,7 +276,7 @@ def at(store, idx, m):
 def aup_contract(store, variant, iid):
     other = "iid_samples" if store == "training_samples" else \
         "training_samples"
-    req = (["n >= 1", "self.proposal.level_count >= 0",
+    req = (DRAW_REQ + ["self.proposal.level_count >= 0",
             # the weight of the new level has been set
             # (add_new_proposal_weight)
             f"len({PW}) == {M_NEW}",
@@ -269,12 +296,12 @@ def aup_contract(store, variant, iid):
         log_domain=True, params={"n": "Int"}, requires=req,
         modifies=["self.history", "self._current_proposal_entropy",
                   "self.training_samples", "self.iid_samples",
-                  "self.live_points_ess",
+                  "self.live_points_ess", "self.draw_samples_time",
                   "self.add_and_update_samples_time"],
         opaque_callees=["ImportanceNestedSampler.compute_leakage",
                         "differential_entropy", "effective_sample_size",
                         "plot_1d_comparison"],
-        may_raise={"RuntimeError": "False", "ValueError": "False"},
+        may_raise={"RuntimeError": "False", "ValueError": None},
         ghost_funcs={"posold": "Int->Int", "posnew": "Int->Int",
                      "isnew": "Int->Bool", "srcnew": "Int->Int",
                      "srcold": "Int->Int"},
